@@ -8,7 +8,7 @@ use serde_json::json;
 
 pub fn lanes() -> Vec<Lane> {
     vec![
-        Lane { name: "messages", count: |c| if c.thorough() { 100_000 } else { 6_000 }, run: messages_lane },
+        Lane { name: "messages", count: |c| if c.thorough() { 200_000 } else { 30_000 }, run: messages_lane },
         Lane { name: "unsigned", count: |c| if c.thorough() { 200_000 } else { 10_000 }, run: unsigned_lane },
         Lane { name: "corpus", count: |_| 1, run: corpus_lane },
     ]
